@@ -76,6 +76,26 @@ func spec_refPath(t TypeName) string { return t.(*ref).pkgPath }
 func spec_refName(t TypeName) string { return t.(*ref).name }
 func spec_isRef(t TypeName) bool     { _, ok := t.(*ref); return ok }
 
+//@ func Package.Pkg
+//@   pure
+//@ func Package.SourceDir
+//@   pure
+//@ func Package.Module
+//@   pure
+//@ func Package.Files
+//@   pure
+//@ func Package.FileSet
+//@   pure
+//@ func Package.Types
+//@   pure
+//@ func Package.Doc
+//@   pure
+//@ func Package.Decl
+//@   pure
+//@ func Package.ObjectOf
+//@   pure
+//@   note interface gengotypes.Package (implemented by *pkgInfo): the methods above are observers of a loaded package; assumed deterministic and without side effects (SourceDir memoises its result: idempotent)
+
 //@ func TypeName.Pkg
 //@   pure
 //@   note interface method (implemented by *types.TypeName and *ref): assumed a deterministic observer without side effects
@@ -285,3 +305,46 @@ func spec_sortedKeys[V any](m map[string]V) []string {
 	}
 	return keys
 }
+
+// ---- ghost logs ----
+
+// spec_Effect: one file-system effect of a run (the only modelled ways bytes on disk change).
+type spec_Effect struct {
+	Kind int // spec_Open: file created or truncated; spec_Write: bytes written to an open file; spec_Remove; spec_SaveSum: gengo.sum rewritten
+	Path string
+}
+
+const (
+	spec_Open    = 1
+	spec_Write   = 2
+	spec_Remove  = 3
+	spec_SaveSum = 4
+)
+
+// spec_fx(): the effect log so far, in order (ghost).
+func spec_fx() []spec_Effect { panic("ghost: effect log") }
+
+// spec_Call: one invocation of user code by the framework.
+type spec_Call struct {
+	Kind int // spec_GenType: Generator.GenerateType; spec_GenAlias: AliasGenerator.GenerateAliasType; spec_Deferred: a callback registered with Defer
+	Gen  any   // the generator (or the callback)
+	Obj  any   // the type it was invoked for
+	Err  error // what the call returned
+}
+
+const (
+	spec_GenType  = 1
+	spec_GenAlias = 2
+	spec_Deferred = 3
+)
+
+// spec_calls(): the call log so far, in order (ghost).
+func spec_calls() []spec_Call { panic("ghost: call log") }
+
+// spec_pipeline(): the formatter steps applied so far, in order (ghost): "parse|<mode>", "sortimports",
+// "gofumpt|<LangVersion>|<ModulePath>", "print".
+func spec_pipeline() []string { panic("ghost: formatter pipeline log") }
+
+// spec_parsed() / spec_parsedName(): the source text and file name most recently handed to go/parser (ghost).
+func spec_parsed() string     { panic("ghost: parsed text") }
+func spec_parsedName() string { panic("ghost: parsed file name") }
